@@ -18,6 +18,10 @@ func (g *Gen) c16Floats() []float64 {
 			fs = append(fs, f)
 		}
 	}
+	// neighbours in a column: values that are equal under == but not identical, runs of one value
+	for _, f := range []float64{0, math.Copysign(0, -1), 0, math.Copysign(0, -1), math.Copysign(0, -1), 0, 1.5, 1.5, -1.5, 1.5, 1e300, 1e300, 0} {
+		add(f)
+	}
 	mants := []uint64{0, 1, 2, 1<<52 - 1, 1 << 51, 0xAAAAAAAAAAAAA, 0x5555555555555}
 	expStep := g.pick(7, 1)
 	for e := g.rng.Intn(expStep); e <= 2046; e += expStep {
@@ -93,6 +97,32 @@ func (g *Gen) c16Floats() []float64 {
 	for k := 0; k < g.pick(150, 3000); k++ { // and larger ones: an integer part plus a short dyadic fraction
 		add(float64(g.rng.Intn(1<<uint(g.rng.Intn(44)))) + math.Ldexp(float64(1+2*g.rng.Intn(16)), -1-g.rng.Intn(24)))
 	}
+	// decimals with exactly n significant digits, n = 1..17, at many scales: the digit-generation code
+	// switches its arithmetic by digit count (8, 9, 10 digits: 32-bit limits; 16, 17: the maximum)
+	for nd := 1; nd <= 17; nd++ {
+		for k := 0; k < g.pick(14, 200); k++ {
+			lo := int64(1)
+			for i := 1; i < nd; i++ {
+				lo *= 10
+			}
+			d := lo + g.rng.Int63n(9*lo)
+			if k%3 == 0 && nd == 10 {
+				d = 4294967296 + g.rng.Int63n(9999999999-4294967296)
+			}
+			if d%10 == 0 {
+				d++
+			}
+			x, err := strconv.ParseFloat(strconv.FormatInt(d, 10)+"e"+strconv.Itoa(g.rng.Intn(41)-25), 64)
+			if err == nil {
+				add(x)
+			}
+		}
+	}
+	add(4294967296)
+	add(4294967295)
+	add(4294967297)
+	add(5123456789)
+	add(0.4294967297)
 	n := len(fs)
 	for i := 0; i < n; i += 2 {
 		fs = append(fs, -fs[i])
